@@ -1,10 +1,13 @@
 #!/bin/bash
-# tools/mut.sh <PROPERTY> <sed-expr> <file-in-repo> : apply a one-off mutation to /repo, run the check, undo.
+# tools/mut.sh <PROPERTY> <sed-expr> <file-in-repo> [tier]: apply a one-off mutation to /repo, run the check, undo.
 P=$1; EXPR=$2; F=$3
 cd /repo || exit 9
 if [ -n "$(git status --porcelain)" ]; then echo "repo dirty"; exit 9; fi
 sed -i -E "$EXPR" "$F"
 git diff --stat | tail -1
-cd /verif && bin/check $P ${4:+--tier $4} | grep -v "^  rule" | head -${MUTLINES:-12}
+cd /verif
+cp evidence/$P.json /tmp/.evidence.$P.bak 2>/dev/null
+bin/check $P ${4:+--tier $4} | grep -v "^  rule" | cut -c1-${MUTCOLS:-400} | head -${MUTLINES:-12}
 echo "exit=${PIPESTATUS[0]}"
 git -C /repo checkout -- .
+[ -f /tmp/.evidence.$P.bak ] && mv /tmp/.evidence.$P.bak evidence/$P.json
